@@ -50,7 +50,7 @@ func newC17World() *c17World {
 		"vmap": types.NewMap(types.Typ[types.String], tyInt), "vchan": types.NewChan(types.SendRecv, tyInt),
 		"vfunc": types.NewSignatureType(nil, nil, nil, nil, nil, false), "vptr": types.NewPointer(tyInt),
 		"vstruct": types.NewStruct([]*types.Var{types.NewField(token.NoPos, w.pkg.Types, "A", tyInt, false)}, nil),
-		"viface": types.NewInterfaceType(nil, nil), "verror": types.Universe.Lookup("error").Type(),
+		"viface":  types.NewInterfaceType(nil, nil), "verror": types.Universe.Lookup("error").Type(),
 		"vcomplex": types.Typ[types.Complex128], "vuptr": types.Typ[types.UnsafePointer],
 	}
 	for n, t := range tys {
@@ -156,8 +156,12 @@ func c17Operations() []c17Operation {
 		}},
 		c17Operation{Name: "SliceLit", Arity: 2, Do: func(w *c17World, cb *gogen.CodeBuilder) { cb.SliceLit(types.NewSlice(types.Typ[types.Int]), 2) }},
 		c17Operation{Name: "SliceLitKV", Arity: 2, Do: func(w *c17World, cb *gogen.CodeBuilder) { cb.SliceLit(types.NewSlice(types.Typ[types.Int]), 2, true) }},
-		c17Operation{Name: "ArrayLitKV", Arity: 2, Do: func(w *c17World, cb *gogen.CodeBuilder) { cb.ArrayLit(types.NewArray(types.Typ[types.Int], 2), 2, true) }},
-		c17Operation{Name: "MapLit", Arity: 2, Do: func(w *c17World, cb *gogen.CodeBuilder) { cb.MapLit(types.NewMap(types.Typ[types.String], types.Typ[types.Int]), 2) }},
+		c17Operation{Name: "ArrayLitKV", Arity: 2, Do: func(w *c17World, cb *gogen.CodeBuilder) {
+			cb.ArrayLit(types.NewArray(types.Typ[types.Int], 2), 2, true)
+		}},
+		c17Operation{Name: "MapLit", Arity: 2, Do: func(w *c17World, cb *gogen.CodeBuilder) {
+			cb.MapLit(types.NewMap(types.Typ[types.String], types.Typ[types.Int]), 2)
+		}},
 		c17Operation{Name: "MapLitNil", Arity: 2, Do: func(w *c17World, cb *gogen.CodeBuilder) { cb.MapLit(nil, 2) }},
 		c17Operation{Name: "StructLit", Arity: 1, Do: func(w *c17World, cb *gogen.CodeBuilder) { cb.StructLit(w.vars["vstruct"].Type(), 1, false) }},
 		c17Operation{Name: "StructLitKV", Arity: 2, Do: func(w *c17World, cb *gogen.CodeBuilder) { cb.StructLit(w.vars["vstruct"].Type(), 2, true) }},
